@@ -50,7 +50,9 @@ func genPerm(r *rand.Rand, s *ast.Schema, def *ast.Definition, depth int) brambl
 		return bramble.AllowedFields{AllowAll: true}
 	}
 	m := map[string]bramble.AllowedFields{}
-	for _, f := range def.Fields {
+	fields := append(ast.FieldList{}, def.Fields...)
+	sort.Slice(fields, func(i, j int) bool { return fields[i].Name < fields[j].Name })
+	for _, f := range fields {
 		if strings.HasPrefix(f.Name, "__") || r.Intn(3) == 0 {
 			continue
 		}
@@ -68,7 +70,8 @@ func genPerm(r *rand.Rand, s *ast.Schema, def *ast.Definition, depth int) brambl
 			sub := bramble.AllowedFields{AllowAll: r.Intn(2) == 0}
 			if !sub.AllowAll {
 				sub.AllowedSubfields = map[string]bramble.AllowedFields{}
-				for _, pt := range s.PossibleTypes[ft.Name] {
+				for _, ptn := range sortedDefNames(s.PossibleTypes[ft.Name]) {
+					pt := s.Types[ptn]
 					for k, v := range genPerm(r, s, pt, depth-1).AllowedSubfields {
 						sub.AllowedSubfields[k] = v
 					}
@@ -111,6 +114,8 @@ func runProfile(cfg runCfg, prof string) error {
 		w.preamble += env.preamble()
 	}
 	for i := 0; i < cfg.n; i++ {
+		// every case has its own PRNG stream: case <prof>-<seed>-<i> is reproducible on its own
+		r = rand.New(rand.NewSource(cfg.seed*1000003 + int64(i)*7919 + int64(len(prof))))
 		env := envs[[]int{0, 0, 0, 1, 2, 2}[r.Intn(6)]]
 		if prof == "c16" {
 			env = envs[0]
